@@ -40,6 +40,18 @@ P.update({
  'C18': dict(level='other', ref='DESIGN.md section 3 C18',
    text='Idempotence, tag-rule conformance and stored/relayed-as-received for every string of length <= 4 (quick) / 6 (thorough) over the full alphabet through the real parser (shadow without message formatting) and the real CacheFeedingProcessor/RelayProcessor; order- and syntax-independence over tables of components incl. empty and reserved-character ones with symbolic indices (the OpenMetrics regex on long symbolic strings is out of reach). One known finding (mixed syntax).'),
 })
+P.update({
+ 'C03': dict(level='other', ref='DESIGN.md section 3 C03',
+   text='One writer pass of the REAL carbon.writer over a symbolic workload (subset of 2x2 datapoints, symbolic values), symbolic pre-existing files, symbolic 3/4-bit fault mask over the exists/create/write calls, create/update buckets absent or scripted by symbolic bits, all 7 strategies: per drained batch exactly one of {one write under its own name after the exists gate, counted dropped create, counted/logged error}, counters exact, nothing lost or duplicated; writeForever survives an escaping exception. Interleavings: race harness (see notes).'),
+ 'C04': dict(level='other', ref='DESIGN.md section 3 C04',
+   text='REAL writeForever with the stop arriving at a symbolic event index (every read of reactor.running, every sleep, every backend call), 0-2 stores by the receiving thread at symbolic earlier events, all strategies, MIN_TIMESTAMP_LAG 0 / large, shutdown rate setting present/absent: at writer exit every accepted datapoint was written exactly once and the cache is empty. Twisted\'s shutdown ordering is an assumption.'),
+ 'C07': dict(level='other', ref='DESIGN.md section 3 C07',
+   text='Inductive step lemmas on the real CarbonClientFactory/Protocol from symbolic pre-states (queue length, connection/pause/queueFull flags) with UNBOUNDED symbolic thresholds low <= MAX <= hard and batch size: arrival, self-metric, send, connection lost/failed with dynamic router, orderly stop; plus every event sequence of length <= 3 (quick) / 4 (thorough) over 8 event kinds against a queue model (exactly once, in order, never to a dead connection, discards counted).'),
+ 'C09': dict(level='other', ref='DESIGN.md section 3 C09',
+   text='Relay side: 0-4 arrivals with optional connection loss/re-establishment and self-metric, repeated fill/drain rounds, and two destinations behind the real CarbonClientManager with dynamic-router removal, all with symbolic thresholds, run to quiescence of the virtual reactor: paused implies a queue still at/above its low watermark. Cache side: inductive drain step with unbounded symbolic MAX_CACHE_SIZE and fill/drain cycles for all strategies. Connections made while paused. Interleavings of the two threads: race harness (see notes).'),
+ 'C15': dict(level='other', ref='DESIGN.md section 3 C15',
+   text='Real client encoders -> bytes -> real listeners for boundary tables of 50 values x 8 timestamps x 7 names (symbolic indices; printf/strtod/pickle are C code): pickle identical, plaintext name identical, timestamp truncated, value within 5e-11 + ulp, +-inf kept. Batching: queue length 0..7 and ANY symbolic MAX_DATAPOINTS_PER_MESSAGE >= 1: concatenation of messages == queue, each message within the limit.'),
+})
 NA_PENDING = 'harness not implemented yet in this round (see DESIGN.md section 3 for the planned solver-based harness)'
 
 
